@@ -17,8 +17,8 @@ const (
 func okOf(fn *ssa.Function, R *Renderer, name string, subs ...string) Need {
 	var fs []func(*ssa.BasicBlock, int) bool
 	n := 0
-	for _, call := range CallsTo(fn, name) {
-		s := callRender(R, call)
+	for _, call := range CallsToW(fn, name) {
+		s := renderVia(R, call, name)
 		match := true
 		for _, sub := range subs {
 			if !strings.Contains(s, sub) {
@@ -42,8 +42,8 @@ func okOf(fn *ssa.Function, R *Renderer, name string, subs ...string) Need {
 
 func callsMatching(fn *ssa.Function, R *Renderer, name string, subs ...string) []ssa.Instruction {
 	var out []ssa.Instruction
-	for _, call := range CallsTo(fn, name) {
-		s := callRender(R, call)
+	for _, call := range CallsToW(fn, name) {
+		s := renderVia(R, call, name)
 		match := true
 		for _, sub := range subs {
 			if !strings.Contains(s, sub) {
@@ -86,9 +86,7 @@ func ruleC07Sync(c *Ctx) {
 		}
 		c.Guard(rule, fn, nilErrorReturns(fn), "return nil", nil, okOf(fn, R, fRC+"SetRebuilding", ",false)"), okOf(fn, R, fCC+"VerifyRebuildReplica"))
 		// reload without preload: the block map is rebuilt by UpdateLUNMap
-		c.Guard(rule, fn, CallsTo(fn, fRC+"ReloadReplica"), "reload", nil, Need{Desc: "SetPreload(false) first", Instr: func(in ssa.Instruction) bool {
-			return callRender(R, in) == fSrv+"SetPreload($1,false)"
-		}})
+		c.reloadWithoutPreload(rule, fn, R, "$1")
 	}
 	if fn := c.Anchor(rule, fTask+"AddReplica"); fn != nil {
 		R := NewRenderer(fn)
@@ -305,23 +303,53 @@ func ruleC11Sync(c *Ctx) {
 			atom("controller checkpoint set", neAtom(`""`, ck)),
 			atom("controller and replica agree on the checkpoint", eqAtom(ck, c.P.callTerm(fRep+"Info", srvR)+".Checkpoint")),
 			atom("retention count reached", "+len("+cands+") -sync.SnapshotRetentionCount >=0"))
-		co := CallsTo(fn, fRC+"Coalesce")
-		rm := CallsTo(fn, fSrv+"RemoveDiffDisk")
+		// the prepared actions are executed in the cleaner itself or in a helper it hands them to
+		exec, ER := fn, R
+		var via ssa.Instruction
+		var viaArgs []string
+		if len(CallsTo(fn, fRC+"Coalesce")) == 0 {
+			eachInstr(fn, func(in ssa.Instruction) {
+				cl, ok := in.(*ssa.Call)
+				if !ok || via != nil {
+					return
+				}
+				h := cl.Call.StaticCallee()
+				if h == nil || h.Blocks == nil || !isJivaFn(h) || h == fn {
+					return
+				}
+				if len(CallsTo(h, fRC+"Coalesce")) == 1 && len(CallsTo(h, fSrv+"RemoveDiffDisk")) == 1 {
+					via, exec, ER, viaArgs = in, h, NewRenderer(h), callArgs(R, cl)
+				}
+			})
+		}
+		inFn := func(s string) string {
+			if via != nil {
+				return substParams(s, viaArgs)
+			}
+			return s
+		}
+		co := CallsTo(exec, fRC+"Coalesce")
+		rm := CallsTo(exec, fSrv+"RemoveDiffDisk")
 		if len(co) == 1 && len(rm) == 1 {
 			ops := fSrv + "PrepareRemoveDisk($1," + cands + "[+0])#0[*]"
-			if callRender(R, co[0]) == fRC+"Coalesce($2,"+ops+".Source,"+ops+".Target)" && callRender(R, rm[0]) == fSrv+"RemoveDiffDisk($1,"+ops+".Source)" {
+			if inFn(callRender(ER, co[0])) == fRC+"Coalesce($2,"+ops+".Source,"+ops+".Target)" && inFn(callRender(ER, rm[0])) == fSrv+"RemoveDiffDisk($1,"+ops+".Source)" {
 				c.OK(rule, FnName(fn)+" | executes the prepared actions on their own operands", c.P.InstrPos(co[0]), "Coalesce(op.Source, op.Target); RemoveDiffDisk(op.Source)", false)
 			} else {
-				c.Bad(rule, FnName(fn)+" | executes the prepared actions on their own operands", c.P.InstrPos(co[0]), "operands differ from the prepared action's Source/Target", nil)
+				c.Bad(rule, FnName(fn)+" | executes the prepared actions on their own operands", c.P.InstrPos(co[0]), "operands differ from the prepared action's Source/Target: "+inFn(callRender(ER, co[0]))+" ; "+inFn(callRender(ER, rm[0])), nil)
 			}
-			ws := Query{Fn: fn, Start: co[0], IsSite: func(in ssa.Instruction) bool { return in == rm[0] },
-				GenEdge: successEdgesOfCall(fn, co[0]), Gen: func(in ssa.Instruction) bool { return in == pr[0] }}.Run()
+			ws := Query{Fn: exec, Start: co[0], IsSite: func(in ssa.Instruction) bool { return in == rm[0] },
+				GenEdge: successEdgesOfCall(exec, co[0]), Gen: func(in ssa.Instruction) bool { return via == nil && in == pr[0] }}.Run()
 			if len(ws) == 0 {
 				c.OK(rule, FnName(fn)+" | no unlink after a failed merge", c.P.InstrPos(rm[0]), "RemoveDiffDisk is reachable from Coalesce only through its success edge (or a new round)", true)
 			} else {
 				c.Bad(rule, FnName(fn)+" | no unlink after a failed merge", c.P.InstrPos(rm[0]), "after Coalesce failed the loop can still reach RemoveDiffDisk in the same round: the snapshot is unlinked without having been merged", c.witness(ws[0]))
 			}
-			c.Guard(rule, fn, append(co, rm...), "execute action", nil, okOf(fn, R, fSrv+"PrepareRemoveDisk"))
+			if via != nil {
+				c.Guard(rule, fn, []ssa.Instruction{via}, "execute actions", nil, okOf(fn, R, fSrv+"PrepareRemoveDisk"))
+				c.OK(rule, FnName(fn)+" | actions executed by "+FnName(exec), c.P.InstrPos(via), "helper receives the prepared actions", false)
+			} else {
+				c.Guard(rule, fn, append(co, rm...), "execute action", nil, okOf(fn, R, fSrv+"PrepareRemoveDisk"))
+			}
 		} else {
 			c.Bad(rule, FnName(fn)+" | structure", "", "expected one Coalesce and one RemoveDiffDisk", nil)
 		}
@@ -524,4 +552,29 @@ func ruleC11Rest(c *Ctx) {
 		}
 	}
 	c.Floor(rule, 8)
+}
+
+// reloadWithoutPreload: ReloadReplica is called only after SetPreload(<server>, false) — in fn
+// itself, or in the wrapper of ReloadReplica that fn calls with the server as an argument.
+func (c *Ctx) reloadWithoutPreload(rule string, fn *ssa.Function, R *Renderer, server string) {
+	for _, call := range CallsToW(fn, fRC+"ReloadReplica") {
+		h, inner := wrapperInner(call, fRC+"ReloadReplica")
+		if h == nil {
+			c.Guard(rule, fn, []ssa.Instruction{call}, "reload", nil, Need{Desc: "SetPreload(false) first", Instr: func(in ssa.Instruction) bool {
+				return callRender(R, in) == fSrv+"SetPreload("+server+",false)"
+			}})
+			continue
+		}
+		// which parameter of the wrapper receives the server
+		want := ""
+		for i, a := range callArgs(R, call.(ssa.CallInstruction)) {
+			if a == server {
+				want = fmt.Sprintf("$%d", i)
+			}
+		}
+		HR := NewRenderer(h)
+		c.Guard(rule, h, []ssa.Instruction{inner}, "reload", nil, Need{Desc: "SetPreload(false) first", Instr: func(in ssa.Instruction) bool {
+			return want != "" && callRender(HR, in) == fSrv+"SetPreload("+want+",false)"
+		}})
+	}
 }
